@@ -140,11 +140,17 @@ type op struct {
 	Cluster string
 	Inst    string
 	Ver     int32
+	// InPlace: the condition is fetched with Get, changed in place and handed back to Save (what the limiter does with
+	// the per-upstream state condition); only if the store has it, otherwise a fresh object is saved
+	InPlace bool
 }
 
 func (o op) String() string {
 	switch o.Kind {
 	case "save", "saveForeign":
+		if o.InPlace {
+			return fmt.Sprintf("%s(get+modify %s.%s=v%d)", o.Kind, o.Cluster, o.Inst, o.Ver)
+		}
 		return fmt.Sprintf("%s(%s.%s=v%d)", o.Kind, o.Cluster, o.Inst, o.Ver)
 	case "delete":
 		return fmt.Sprintf("delete(%s.%s)", o.Cluster, o.Inst)
@@ -219,16 +225,16 @@ func genHistory(t *rapid.T, own, foreign []string) []op {
 		switch {
 		case k < 5:
 			ver++
-			ops = append(ops, op{"save", cl, inst, ver})
+			ops = append(ops, op{Kind: "save", Cluster: cl, Inst: inst, Ver: ver, InPlace: rapid.IntRange(0, 2).Draw(t, "getModifySave") == 0})
 		case k < 6:
 			ver++
-			ops = append(ops, op{"saveForeign", rapid.SampledFrom(foreign).Draw(t, "fcluster"), inst, ver})
+			ops = append(ops, op{Kind: "saveForeign", Cluster: rapid.SampledFrom(foreign).Draw(t, "fcluster"), Inst: inst, Ver: ver})
 		case k < 8:
-			ops = append(ops, op{"delete", cl, inst, 0})
+			ops = append(ops, op{Kind: "delete", Cluster: cl, Inst: inst})
 		case k < 9:
-			ops = append(ops, op{"deleteUpstream", cl, "", 0})
+			ops = append(ops, op{Kind: "deleteUpstream", Cluster: cl})
 		default:
-			ops = append(ops, op{"flush", "", "", 0})
+			ops = append(ops, op{Kind: "flush"})
 		}
 	}
 	return ops
@@ -276,8 +282,22 @@ func run(h history, period time.Duration, crashAt int, own, foreign []string, tr
 			if period == 0 {
 				m.unacked(name, o.Ver)
 			}
-			err := store.Save(o.Cluster, cond(o.Cluster, o.Inst, o.Ver))
+			obj := cond(o.Cluster, o.Inst, o.Ver)
+			changedInPlace := false
+			if o.InPlace {
+				if have, gerr := store.Get(o.Cluster, name); gerr == nil && have != nil && len(have.Spec.LimitItemConfigurations) == 1 && have.Spec.LimitItemConfigurations[0].MaxRequestsInflight != nil {
+					have.Spec.LimitItemConfigurations[0].MaxRequestsInflight.Max = o.Ver
+					obj = have
+					changedInPlace = true
+				}
+			}
+			err := store.Save(o.Cluster, obj)
 			*trace = append(*trace, fmt.Sprintf("%s->%v", o, err == nil))
+			if err != nil && changedInPlace {
+				// the caller changed the store's own copy: the new value is the local one although the save was not
+				// acknowledged (it stays in the unacknowledged set, a later flush may persist it)
+				local[name] = o.Ver
+			}
 			if err == nil {
 				local[name] = o.Ver
 				if period == 0 {
